@@ -58,6 +58,9 @@ def run(tier):
             chk.count_case([sc["id"]])
         chk.sample({"script": scripts[-1]["id"], "cf": scripts[-1]["cf"], "steps": scripts[-1]["steps"][:16]})
     system_level(chk, sd)
+    # the composed request path (spec/System.tla): limiter ; breaker ; selection ; proxy ; counting
+    import system_common, pool_common as _pc
+    system_common.run(chk, sd, _pc.build_lbsim(sd), {"C07"}, plans=system_common.QUICK[:1] if tier != "thorough" else system_common.THOROUGH[:5])
     chk.cov["exhaustive"] = True
     chk.cov["rule"] = ("every transition of the TLA+ breaker model (all interleavings of its critical sections) "
                        "is executed on the real breaker via covering walks; a case = one replayed walk")
